@@ -49,9 +49,17 @@ def main():
     wt = f'/tmp/seed_{prop}'
     out = os.path.join(ROOT, 'seeded', f'{prop}-{k}')
     os.makedirs(out, exist_ok=True)
-    for f in ('patch.diff', 'demo.py'):
-        shutil.copy(os.path.join(src, f), os.path.join(out, f))
+    if os.path.isdir(src):          # fresh output of a seeding sub-agent; otherwise the seed already lives in seeded/
+        for f in ('patch.diff', 'demo.py'):
+            shutil.copy(os.path.join(src, f), os.path.join(out, f))
+    created_wt = False
+    if not os.path.isdir(wt):       # scratch worktree of /repo (removed again at the end)
+        sh(f'git -C /repo worktree add --detach {wt} HEAD')
+        created_wt = True
     meta_src = json.load(open(os.path.join(src, 'meta.json'))) if os.path.exists(os.path.join(src, 'meta.json')) else {}
+    if not meta_src and os.path.exists(os.path.join(out, 'meta.json')):
+        prev_meta = json.load(open(os.path.join(out, 'meta.json')))
+        meta_src = {'summary': prev_meta.get('breaks'), 'needs': prev_meta.get('needs'), 'functions_changed': prev_meta.get('functions_changed'), 'ran': prev_meta.get('author_ran')}
     meta = {'property': prop, 'breaks': meta_src.get('summary'), 'needs': meta_src.get('needs'),
             'functions_changed': meta_src.get('functions_changed'), 'author_ran': meta_src.get('ran'), 'confirmed': {}, 'detection': {}}
     env = dict(os.environ, PYTHONPATH=wt)
@@ -99,6 +107,8 @@ def main():
                                   'lines': [l[:300] for l in lines[:8]], 'summary': summ[:1], 'secs': round(time.time() - t0), 'mode': a.mode, 'only': a.only}
         # keep the evidence of the unchanged tree: re-running the check later restores it
     sh('git checkout -- . && git clean -fdq fpy2', cwd=wt)
+    if created_wt:
+        sh(f'git -C /repo worktree remove --force {wt}')
     json.dump(meta, open(os.path.join(out, 'meta.json'), 'w'), indent=1)
     print(json.dumps({'seed': f'{prop}-{k}', 'confirmed': meta['confirmed'].get('ok'), 'detection': {c: d.get('detected') for c, d in meta['detection'].items()},
                       'exit': {c: d.get('exit') for c, d in meta['detection'].items()}}))
